@@ -159,56 +159,77 @@ def keys(ctx, branches):
     ctx.need(sub, "R20.1", "subxml helper not found")
     excl = set()
     for n in ast.walk(sub[0]):
-        if isinstance(n, ast.Compare) and isinstance(n.ops[0], ast.In) and isinstance(n.comparators[0], ast.Tuple):
-            for e in n.comparators[0].elts:
-                try:
-                    excl.add(ctx.m.const(e))
-                except NotConst:
-                    pass
+        if isinstance(n, ast.Compare) and isinstance(n.ops[0], (ast.In, ast.NotIn)):
+            try:
+                v = ctx.m.const(n.comparators[0])
+            except NotConst:
+                v = None
+            if isinstance(v, (tuple, list)):
+                excl |= {x for x in v if isinstance(x, str)}
+            elif isinstance(n.comparators[0], (ast.Tuple, ast.List, ast.Set)):
+                for e in n.comparators[0].elts:
+                    try:
+                        excl.add(ctx.m.const(e))
+                    except NotConst:
+                        pass
     ctx.ob("R20.1", "_write_node.subxml[keys written elsewhere are not copied]", {"transform", "fill", "stroke", "attributes", "tag"} <= excl, str(sorted(excl)), sub[0].lineno,
            "transform and paint are recomputed by the writer; copying the parsed strings as well would apply them twice or contradict them")
     return seen
 
 
 def viewport(ctx, fn, branches):
+    from ..flow import Taint, is_const
+
     body = dict((c, b) for c, b, l in branches)
     svg = body["SVG"]
-    src = "\n".join(ast.unparse(s) for s in svg)
-    inv = "m = Matrix(vt)" in src and "m.inverse()" in src and "vt = m" in src and "vt = node.viewbox_transform" in src
+    P = [a.arg for a in fn.args.args]
+    node, tree, inherited = P[0], P[1], P[2]
+    own = Taint(svg, lambda n: attr_chain(n) == [node, "viewbox_transform"] or (isinstance(n, ast.Constant) and isinstance(n.value, str) and n.value.startswith("translate(")), through_containers=False)
+    mats = Taint(svg, lambda n: isinstance(n, ast.Call) and call_name(n) == "Matrix" and n.args and own.derived(n.args[0]), through_containers=False)
+    inverted = [c for s_ in svg for c in ast.walk(s_) if isinstance(c, ast.Call) and isinstance(c.func, ast.Attribute) and c.func.attr == "inverse" and isinstance(c.func.value, ast.Name)
+                and c.func.value.id in mats.names]
+    passes = [c for s_ in svg for c in ast.walk(s_) if isinstance(c, ast.Call) and call_name(c) == "_write_node"]
+    handed = passes[0].args[2] if len(passes) == 1 and len(passes[0].args) == 3 else None
+    inv = bool(inverted) and handed is not None and isinstance(handed, ast.Name) and handed.id in mats.names | own.names
     ctx.ob("R20.3", "_write_node[SVG: inverse of its own viewport]", inv, "", svg[0].lineno, "children of an svg are written relative to its viewport: its equivalent transform must be inverted")
-    comp = [s for s in stmts_in(svg) if isinstance(s, ast.Assign) and ast.unparse(s.targets[0]) == "vt" and "viewport_transform" in ast.unparse(s.value)]
-    ok = False
-    detail = ""
-    if comp:
-        v = comp[0].value
-        detail = ast.unparse(v)
-        prod = [n for n in ast.walk(v) if isinstance(n, ast.BinOp) and isinstance(n.op, (ast.Mult, ast.MatMult))]
-        ok = any(ast.unparse(p.left) == "viewport_transform" and ast.unparse(p.right) == "vt" for p in prod)
-    ctx.ob("R20.3", "_write_node[SVG: composes the inherited inverse]", ok, detail, svg[0].lineno,
+    prod = [n for s_ in svg for n in ast.walk(s_) if isinstance(n, ast.BinOp) and isinstance(n.op, (ast.Mult, ast.MatMult))]
+    ok = any(isinstance(p_.left, ast.Name) and p_.left.id == inherited and isinstance(p_.right, ast.Name) and p_.right.id in mats.names | own.names for p_ in prod)
+    wrong = [p_ for p_ in prod if isinstance(p_.right, ast.Name) and p_.right.id == inherited and isinstance(p_.left, ast.Name) and p_.left.id in mats.names | own.names]
+    ctx.ob("R20.3", "_write_node[SVG: composes the inherited inverse]", ok and not wrong, "; ".join(ast.unparse(p_) for p_ in prod)[:120], svg[0].lineno,
            "content of a nested svg carries the enclosing viewports too: its children need inverse(outer) then inverse(own); dropping the inherited part re-applies the outer viewBox on every write/parse generation")
-    nest = "translate(" in src and "node.x" in src and "node.y" in src and "nested" in src
+    nested_flag = Taint(svg, lambda n: isinstance(n, ast.Compare) and isinstance(n.ops[0], (ast.IsNot, ast.Is)) and isinstance(n.left, ast.Name) and n.left.id == tree, through_containers=False)
+    nest = False
+    for s_ in svg:
+        for x in ast.walk(s_):
+            if isinstance(x, ast.If) and nested_flag.derived(x.test):
+                txt = [n for y in x.body for n in ast.walk(y) if isinstance(n, ast.Constant) and isinstance(n.value, str) and n.value.startswith("translate(")]
+                xs = {".".join(attr_chain(n) or []) for y in x.body for n in ast.walk(y) if isinstance(n, ast.Attribute)}
+                if txt and {"%s.x" % node, "%s.y" % node} <= xs:
+                    nest = True
     ctx.ob("R20.3", "_write_node[SVG: nested svg without viewBox]", nest, "", svg[0].lineno,
            "the reader translates the content of a nested svg without viewBox to (x, y); the writer must undo exactly that")
-    passes = [c for s in svg for c in ast.walk(s) if isinstance(c, ast.Call) and call_name(c) == "_write_node"]
-    ok = len(passes) == 1 and [ast.unparse(a) for a in passes[0].args] == ["child", "xml_tree", "vt"]
+    ok = len(passes) == 1 and len(passes[0].args) == 3 and isinstance(passes[0].args[1], ast.Name) and passes[0].args[1].id == tree and inv
     ctx.ob("R20.3", "_write_node[SVG: children receive the inverse]", ok, "", svg[0].lineno, "")
     for cname in ("Group", "Use"):
         b = body[cname]
-        passes = [c for s in b for c in ast.walk(s) if isinstance(c, ast.Call) and call_name(c) == "_write_node"]
-        ok = len(passes) == 1 and [ast.unparse(a) for a in passes[0].args] == ["child", "xml_tree", "viewport_transform"]
+        passes = [c for s_ in b for c in ast.walk(s_) if isinstance(c, ast.Call) and call_name(c) == "_write_node"]
+        ok = len(passes) == 1 and len(passes[0].args) == 3 and isinstance(passes[0].args[1], ast.Name) and passes[0].args[1].id == tree \
+            and isinstance(passes[0].args[2], ast.Name) and passes[0].args[2].id == inherited
         ctx.ob("R20.3", "_write_node[%s: inverse handed on]" % cname, ok, "", b[0].lineno, "containers pass the inverse viewport on to their children unchanged")
     # the transform write: t = node.transform ; t = t * viewport_transform
     tw = None
-    for s in fn.body:
-        if isinstance(s, ast.If) and "hasattr(node, 'transform')" in ast.unparse(s.test):
-            tw = s
+    for s_ in fn.body:
+        if isinstance(s_, ast.If) and any(isinstance(c, ast.Call) and call_name(c) == "hasattr" and len(c.args) == 2 and is_const(ctx.m, c.args[1], "transform") for c in ast.walk(s_.test)):
+            tw = s_
     ctx.need(tw is not None, "R20.3", "transform emission not found")
+    tr = Taint(tw, lambda n: attr_chain(n) == [node, "transform"], through_containers=False)
     prods = [n for n in ast.walk(tw) if isinstance(n, ast.BinOp) and isinstance(n.op, (ast.Mult, ast.MatMult))]
-    ok = len(prods) == 1 and ast.unparse(prods[0].left) == "t" and ast.unparse(prods[0].right) == "viewport_transform"
+    ok = len(prods) == 1 and tr.derived(prods[0].left) and isinstance(prods[0].right, ast.Name) and prods[0].right.id == inherited
     ctx.ob("R20.3", "_write_node[transform x inverse(viewport)]", ok, ast.unparse(prods[0]) if prods else "", tw.lineno,
            "the reader folds inherited (viewport) transforms on the last-applied side, so the inverse must be multiplied on the right of the element's matrix")
-    fmt = [n for n in ast.walk(tw) if isinstance(n, ast.BinOp) and isinstance(n.op, ast.Mod) and isinstance(n.left, ast.Constant)]
-    ok = len(fmt) == 1 and fmt[0].left.value.startswith("matrix(") and fmt[0].left.value.count("%f") == 6 and [ast.unparse(e) for e in fmt[0].right.elts] == ["t.a", "t.b", "t.c", "t.d", "t.e", "t.f"]
+    fmt = [n for n in ast.walk(tw) if isinstance(n, ast.BinOp) and isinstance(n.op, ast.Mod) and isinstance(n.left, ast.Constant) and isinstance(n.left.value, str)]
+    ok = len(fmt) == 1 and fmt[0].left.value.startswith("matrix(") and fmt[0].left.value.count("%") == 6 and isinstance(fmt[0].right, ast.Tuple) \
+        and [e.attr if isinstance(e, ast.Attribute) else None for e in fmt[0].right.elts] == ["a", "b", "c", "d", "e", "f"] and all(tr.derived(e) for e in fmt[0].right.elts)
     ctx.ob("R20.3", "_write_node[matrix(a b c d e f)]", ok, "", tw.lineno, "the matrix is written in SVG component order")
     t = ast.unparse(tw.test)
     ok = "not isinstance(node, (Group, Use))" in t or ("not isinstance(node, Group)" in t and "Use" in t)
@@ -242,26 +263,55 @@ def viewport(ctx, fn, branches):
 
 
 def paint(ctx, fn):
+    from ..flow import Taint, bindings, const_value, is_const
+
+    def set_calls(region, key):
+        return [c for top in region for c in ast.walk(top) if isinstance(c, ast.Call) and isinstance(c.func, ast.Attribute) and c.func.attr == "set" and len(c.args) == 2
+                and is_const(ctx.m, c.args[0], key)]
+
     for kind in ("stroke", "fill"):
         blk = None
-        for s in fn.body:
-            if isinstance(s, ast.If) and ast.unparse(s.test) == "hasattr(node, '%s')" % kind:
-                blk = s
+        for x in fn.body:
+            if isinstance(x, ast.If) and isinstance(x.test, ast.Call) and call_name(x.test) == "hasattr" and len(x.test.args) == 2 and is_const(ctx.m, x.test.args[1], kind):
+                blk = x
         ctx.need(blk is not None, "R20.4", "%s emission not found" % kind)
-        src = ast.unparse(blk)
-        ok = "str(abs(%s))" % kind in src and "SVG_VALUE_NONE" in src and "%s.value is not None" % kind in src and "xml_tree.set(SVG_ATTR_%s, str(%s))" % (kind.upper(), kind) in src
+        colour = Taint(blk, lambda n: attr_chain(n) == ["node", kind], through_containers=False)
+        opaque = Taint(blk, lambda n: isinstance(n, ast.Call) and call_name(n) == "abs" and n.args and colour.derived(n.args[0]), through_containers=False)
+        sets = set_calls([blk], kind)
+        none_alt = any(is_const(ctx.m, n, "none") for n in ast.walk(blk) if isinstance(n, (ast.Name, ast.Constant)))
+        valtest = any(isinstance(c, ast.Compare) and isinstance(c.left, ast.Attribute) and c.left.attr == "value" and colour.derived(c.left.value) for c in ast.walk(blk))
+        ok = len(sets) == 1 and opaque.derived(sets[0].args[1]) and none_alt and valtest
         ctx.ob("R20.4", "_write_node[%s colour]" % kind, ok, "", blk.lineno, "the colour is written opaque (alpha separately), 'none' when it has no value")
-        ok = "%s_opacity = %s.opacity" % (kind, kind) in src and "%s_opacity != 1.0" % kind in src and "xml_tree.set(SVG_ATTR_%s_OPACITY, str(%s_opacity))" % (kind.upper(), kind) in src
+        osets = set_calls([blk], kind + "-opacity")
+        reads = [n for n in ast.walk(blk) if isinstance(n, ast.Attribute) and n.attr == "opacity" and colour.derived(n.value)]
+        op = Taint(blk, lambda n: any(n is r for r in reads), through_containers=False)
+        guarded = False
+        for c in osets:
+            p_ = getattr(c, "_parent", None)
+            while p_ is not None and p_ is not blk:
+                if isinstance(p_, ast.If) and any(isinstance(k, ast.Compare) and isinstance(k.ops[0], ast.NotEq) and any(const_value(ctx.m, z, None) in (1, 1.0) for z in [k.left] + k.comparators) and op.derived(k) for k in ast.walk(p_.test)):
+                    guarded = True
+                p_ = getattr(p_, "_parent", None)
+        ok = len(osets) == 1 and bool(reads) and op.derived(osets[0].args[1]) and guarded
         ctx.ob("R20.4", "_write_node[%s opacity]" % kind, ok, "", blk.lineno, "alpha is written as the matching opacity attribute (and read back folded into the colour)")
-        # opacity must be read before the colour variable is overwritten by its string
-        i1 = src.find("%s_opacity = %s.opacity" % (kind, kind))
-        i2 = src.find("%s = str(abs" % kind)
-        if i2 < 0:
-            i2 = src.find("%s = (" % kind)
-        ctx.ob("R20.4", "_write_node[%s opacity read before colour is stringified]" % kind, 0 <= i1 < i2, "", blk.lineno, "")
-    src = ast.unparse(fn)
-    ctx.ob("R20.4", "_write_node[stroke width]", "xml_tree.set(SVG_ATTR_STROKE_WIDTH, str(stroke_width))" in src and "stroke_width = str(node.stroke_width)" in src, "", fn.lineno, "stroke width is written")
-    ctx.ob("R20.4", "_write_node[id]", "if node.id is not None" in src and "xml_tree.set(SVG_ATTR_ID, str(node.id))" in src, "", fn.lineno, "ids are written when present")
+        # the opacity must be read from the Color object: before the local holding it is overwritten by its string form
+        stale = False
+        for r in reads:
+            base = r.value
+            if isinstance(base, ast.Name):
+                for tg, v, n in bindings(blk):
+                    if isinstance(tg, ast.Name) and tg.id == base.id and n.lineno < r.lineno and any(isinstance(c, ast.Call) and call_name(c) == "str" for c in ast.walk(v)):
+                        stale = True
+        ctx.ob("R20.4", "_write_node[%s opacity read before colour is stringified]" % kind, bool(reads) and not stale, "", blk.lineno,
+               "once the local holds the colour's string, `.opacity` is no longer available")
+    sw = Taint(fn, lambda n: attr_chain(n) == ["node", "stroke_width"], through_containers=False)
+    ws = set_calls([fn], "stroke-width")
+    ctx.ob("R20.4", "_write_node[stroke width]", len(ws) >= 1 and all(sw.derived(c.args[1]) for c in ws), "", fn.lineno, "stroke width is written")
+    ids = set_calls([fn], "id")
+    idt = Taint(fn, lambda n: attr_chain(n) == ["node", "id"], through_containers=False)
+    guarded = any(isinstance(x, ast.If) and any(isinstance(k, ast.Compare) and isinstance(k.ops[0], ast.IsNot) and idt.derived(k.left) for k in ast.walk(x.test))
+                  and any(c is y for c in ids for b_ in x.body for y in ast.walk(b_)) for x in ast.walk(fn))
+    ctx.ob("R20.4", "_write_node[id]", len(ids) >= 1 and all(idt.derived(c.args[1]) for c in ids) and guarded, "", fn.lineno, "ids are written when present")
 
 
 def order(ctx, branches):
